@@ -78,7 +78,7 @@ func runC07(c *Ctx) {
 	p := c.Progs["agent"]
 
 	// ---- C07.F
-	c.Rule("C07.F", "no process-terminating call in module source is reachable from the per-request worker (VTA reachability)", 2)
+	c.Rule("C07.F", "no process-terminating call in module source is reachable from the per-request worker (VTA reachability); no I/O-fault signal is treated as a shutdown request", 3)
 	root := c.need(p, "C07.F", "agent.processOneRequest")
 	var reach map[*ssa.Function][]*ssa.Function
 	if root != nil {
@@ -104,6 +104,22 @@ func runC07(c *Ctx) {
 			} else {
 				c.OK("C07.F", key, p, s.Pos(), "not reachable from agent.processOneRequest (start-up / lifecycle code)")
 			}
+		}
+	}
+
+	// the shutdown channel is not closed by a signal that an I/O fault raises: once a program
+	// asks for SIGPIPE with signal.Notify, a write to any broken pipe or socket delivers it, so a
+	// single client or backend that hangs up would start the agent's shutdown
+	for _, fn := range p.AllFuncs {
+		if !p.IsModFunc(fn) {
+			continue
+		}
+		if pk := fnPkg(fn); pk == nil || !(Rel(pk.Pkg.Path()) == "agent" || strings.HasPrefix(Rel(pk.Pkg.Path()), "agent/")) {
+			continue
+		}
+		for _, sn := range Calls(fn, "os/signal.Notify") {
+			sigs := notifiedSignals(p, sn)
+			c.Check("C07.F", "signals:none-raised-by-io-faults@"+FuncName(fn), p, sn.Pos(), len(sigs) > 0 && !sigs[13], fmt.Sprintf("signal.Notify registers %v: no SIGPIPE(13), and not every signal", sigs), fmt.Sprintf("signal.Notify in %s registers %v (an empty set means every signal): SIGPIPE(13) is raised by a write to a connection its peer has closed, so one broken connection makes the agent shut down with all its other requests", FuncName(fn), sigs))
 		}
 	}
 
@@ -147,7 +163,7 @@ func runC07(c *Ctx) {
 	ruleListNotRejectedForOneElement(c, p, "C07.E")
 	ruleWorkerPerRequest(c, p, "C07.E")
 	c.Rule("C07.I", "offsets are applied to the value they were found in; possibly-nil pointers are tested before use; externally supplied indices are bounded below; a response returned with an error is not dereferenced", 6)
-	ruleExternalIndexInBounds(c, p, "C07.I", "agent/websockets", "agent/utils", "agent/sessions", "agent/banner", "agent")
+	ruleExternalIndexInBounds(c, p, "C07.I", "agent/websockets", "agent/utils", "agent/sessions", "agent/banner", "agent/metrics", "agent")
 	ruleResponseDerefOnErrorPath(c, p, "C07.I", "agent/websockets", "agent/utils", "agent", "agent/sessions", "agent/banner")
 	ruleIndexSliceAgreement(c, p, "C07.I", "agent/websockets", "agent/banner", "agent/utils", "agent/sessions")
 	ruleMayNilDeref(c, p, "C07.I", "agent/websockets.(*Connection).SendClientMessage", "agent/websockets.(*Connection).ReadServerMessages", "agent/websockets.NewConnection")
@@ -186,6 +202,9 @@ func runC07(c *Ctx) {
 				gos++
 				okArgs := true
 				for _, a := range PArgs(&g.Call) {
+					if a == nil {
+						continue
+					}
 					switch a.Type().Underlying().(type) {
 					case *types.Chan:
 						okArgs = false
